@@ -14,7 +14,7 @@ export PATH=/root/go/pkg/mod/golang.org/toolchain@v0.0.1-go1.24.0.linux-amd64/bi
 GOENV="GOTOOLCHAIN=local GOFLAGS=-mod=mod GOPROXY=off GOSUMDB=off"
 [ -f "$SRC/patch.diff" ] || { echo "no patch in $SRC"; exit 2; }
 mkdir -p "$DST"; cp "$SRC/patch.diff" "$SRC/meta.json" "$DST/" 2>/dev/null; cp "$SRC/demo_test.go" "$DST/demo_test.go.txt"
-R="$DST/result.txt"; : > "$R"
+R="$DST/result.txt"; if [ -z "${SEED_SKIP_CONFIRM:-}" ]; then : > "$R"; else grep -v "^DETECTED\|^MISSED\|^VIOLATION" "$R" > "$R.tmp" 2>/dev/null; mv "$R.tmp" "$R"; fi
 if [ -z "${SEED_SKIP_CONFIRM:-}" ]; then
   git -C "$WT" checkout -q -- . ; rm -f "$WT"/seeded_demo_*_test.go
   cp "$SRC/demo_test.go" "$WT/seeded_demo_${X}_test.go"
